@@ -8,7 +8,7 @@ pub fn main(args: &[String]) {
     let root = format!("{}.fs", out);
     let _ = std::fs::remove_dir_all(&root); std::fs::create_dir_all(&root).unwrap();
     let corp = corpus::load(workdir);
-    let n = if thorough { 6000 } else { 700 };
+    let n = if thorough { 6000 } else { 1200 };
     let mut cases = vec![];
     for i in 0..n {
         let c = match i % 4 {
